@@ -312,6 +312,21 @@ def run_case(case, ctx):
         if sp and k % 2 == 1 and sp[-1] == t1:
             sp[-1] = t1 + 4e-7
         shifted.append(sp)
+    for name, kind, fn, keys in entry_points():
+        b = messy()
+        sb = _snap(b)
+        try:
+            with __import__("pbt.env", fromlist=["quiet"]).quiet():
+                if kind == "pair":
+                    fn(b[0], b[1], Reconcile=False)
+                else:
+                    fn(b, Reconcile=False)
+        except Exception:
+            pass          # unreconciled messy input: the result is not defined, only
+        ctx.check(_snap(b) == sb, "input_modified:" + name,       # ... the inputs must stay
+                  lambda: "%s(Reconcile=False) on unsorted input changed the trains passed "
+                          "to it: %r -> %r" % (name, [m["spikes"] for m in case["messy"]],
+                                               [list(x.spikes) for x in b]))
     if shifted != [list(x) for x in ex_all]:
         for name, kind, fn, keys in entry_points():
             b = [pyspike.SpikeTrain(np.array(sp, dtype=float), [t0, t1]) for sp in shifted]
